@@ -127,6 +127,25 @@ def run_roundtrip(c):
         n2 = Netlist(t)
     except Exception as e:
         raise Violation("the written document is rejected by the reader: %s: %s\n%s" % (type(e).__name__, e, t), "reread-rejected")
+    # the same round trip through a file (the name is any string without ': ')
+    import os
+    from gen import files
+    path = files.path(len(t) + len(model["modules"]))
+    try:
+        n.write_yaml(path)
+        with open(path) as f:
+            on_disk = f.read()
+        if on_disk != t:
+            raise Violation("write_yaml(%r) wrote a document that differs from the returned text:\n%r\n---\n%r" % (path, on_disk[:300], t[:300]), "file-differs")
+        try:
+            n2f = Netlist(path)
+        except Exception as e:
+            raise Violation("the document written to %r is rejected when read back from that file: %s: %s" % (path, type(e).__name__, e), "reread-rejected")
+        if describe(n2f) != describe(n2):
+            raise Violation("reading the document from the file %r gives another design than reading its text" % path, "file-differs")
+    finally:
+        if os.path.exists(path):
+            os.unlink(path)
     after = describe(n2)
     compare(before, after, t)
     t2 = n2.write_yaml()
